@@ -154,3 +154,21 @@ pub mod u_empty_mod {}
 pub mod u_only_private {
     fn hidden<D>(deps: &D) {}
 }
+
+// a non-dependency parameter taken by `&mut`: still un-mockable (generic deps / no_deps)
+#[entrait(UMutParam, mock_api = UMutParamMock)]
+fn u_mut_param<D>(deps: &D, out: &mut Vec<i32>, a: i32) -> usize {
+    out.push(a);
+    out.len()
+}
+#[entrait(UMutParamNoDeps, no_deps, mock_api = UMutParamNoDepsMock)]
+fn u_mut_param_no_deps(out: &mut Vec<i32>, a: i32) -> usize {
+    out.push(a);
+    out.len()
+}
+#[entrait(pub UMutParamMod, mock_api = UMutParamModMock)]
+pub mod u_mut_param_mod {
+    pub fn fill<D>(deps: &D, out: &mut [u8], a: u8) {
+        out[0] = a;
+    }
+}
